@@ -146,6 +146,32 @@ func c04QUIC(thorough bool) *explore.Scenario {
 						r.Violate("C04|quic-param-override", "valid IdOverride not kept")
 					}
 				}
+				// every IdOverride in [0, 4096] and around 2^k: whatever the caller asks for, the id that
+				// is emitted is reserved (an override that is not 27+31N is replaced by a drawn one)
+				var ovs []uint64
+				for v := uint64(0); v <= 4096; v++ {
+					ovs = append(ovs, v)
+				}
+				for k := uint(13); k < 62; k++ {
+					for d := uint64(0); d < 64; d++ {
+						ovs = append(ovs, 1<<k-32+d)
+					}
+				}
+				for _, ov := range ovs {
+					rand.Reader = &seqReader{seq: []byte{3, 1, 4, 1, 5, 9, 2, 6, 0, 0, 0, 0, 0, 0, 0, 9}}
+					g := &tls.GREASETransportParameter{IdOverride: ov}
+					id := g.ID()
+					n++
+					if id < 27 || (id-27)%31 != 0 || id >= 1<<62 {
+						bad++
+						if bad <= 2 {
+							r.Violate("C04|quic-param-id|override", "GREASETransportParameter{IdOverride: %d}.ID() = %d, not 27+31N", ov, id)
+						}
+					}
+					if want := ov >= 27 && (ov-27)%31 == 0; want && id != ov {
+						r.Violate("C04|quic-param-override", "valid IdOverride %d replaced by %d", ov, id)
+					}
+				}
 			}
 			r.Count("function_evaluations", n)
 			r.Obs = fmt.Sprintf("part%d|bad=%v", part, bad > 0)
